@@ -13,22 +13,35 @@ Proof.
   eexists; split; [reflexivity|]. split; cbn; [exact Hr|]. unfold Rck in *. cbn. congruence.
 Qed.
 
+Lemma sim_chk_loop1 allow2 ln f1 f2 :
+  simf Rck f1 f2 ->
+  simf Rck (chk_loop1 allow2 ln f1)
+    (fun s => let* s1 := f2 (mkWs (w_r s) SNil) in
+              Ok (mkWs (w_r s1) (stmts_snoc (w_c s) (SLoop ln (w_c s1))))).
+Proof.
+  intros Hf s1 s2 s1' [Hr Hc] E. unfold chk_loop1 in E.
+  destruct (f1 (fresh s1)) as [t1|] eqn:E1; cbn [bind] in E; [|discriminate].
+  assert (HR0 : Rst Rck (fresh s1) (mkWs (w_r s2) SNil)).
+  { split; cbn; [exact Hr|reflexivity]. }
+  destruct (Hf _ _ _ HR0 E1) as (t2 & E2 & [Hr2 Hc2]). rewrite E2. cbn [bind].
+  assert (HX : s1' = mkWs (w_r t1) (mkCk (stmts_snoc (ck_code (w_c s1)) (SLoop ln (ck_code (w_c t1)))) (ck_ndef (w_c t1))
+                                        (ck_c33 (w_c t1)))).
+  { destruct (seq_eqb s1 t1); [congruence|]. destruct allow2; [|discriminate].
+    destruct (f1 (fresh t1)) as [t3|]; cbn [bind] in E; [|discriminate].
+    destruct (seq_eqb t1 t3 && stmts_eqb (ck_code (w_c t1)) (ck_code (w_c t3))); [congruence|discriminate]. }
+  subst s1'. eexists; split; [reflexivity|]. split; cbn; [exact Hr2|]. unfold Rck in *. cbn. congruence.
+Qed.
+
 Lemma sim_chk_loop allow2 ln f1 f2 :
   simf Rck f1 f2 ->
   simf Rck (chk_loop allow2 ln f1)
     (fun s => let* s1 := f2 (mkWs (w_r s) SNil) in
               Ok (mkWs (w_r s1) (stmts_snoc (w_c s) (SLoop ln (w_c s1))))).
 Proof.
-  intros Hf s1 s2 s1' [Hr Hc] E. unfold chk_loop in E.
+  intros Hf s1 s2 s1' HR E. unfold chk_loop in E.
   destruct (f1 (fresh s1)) as [t1|] eqn:E1; cbn [bind] in E; [|discriminate].
-  assert (HR0 : Rst Rck (fresh s1) (mkWs (w_r s2) SNil)).
-  { split; cbn; [exact Hr|reflexivity]. }
-  destruct (Hf _ _ _ HR0 E1) as (t2 & E2 & [Hr2 Hc2]). rewrite E2. cbn [bind].
-  assert (HX : s1' = mkWs (w_r t1) (mkCk (stmts_snoc (ck_code (w_c s1)) (SLoop ln (ck_code (w_c t1)))) (ck_ndef (w_c t1)))).
-  { destruct (seq_eqb s1 t1); [congruence|]. destruct allow2; [|discriminate].
-    destruct (f1 (fresh t1)) as [t3|]; cbn [bind] in E; [|discriminate].
-    destruct (seq_eqb t1 t3 && stmts_eqb (ck_code (w_c t1)) (ck_code (w_c t3))); [congruence|discriminate]. }
-  subst s1'. eexists; split; [reflexivity|]. split; cbn; [exact Hr2|]. unfold Rck in *. cbn. congruence.
+  eapply (sim_chk_loop1 allow2 ln f1 f2 Hf); [|exact E].
+  destruct HR as [Hr Hc]. split; [exact Hr|exact Hc].
 Qed.
 
 Theorem chk_walk_compile nzf :
@@ -65,15 +78,16 @@ Proof.
   - (* bitmapped *)
     intros id f1 f2 _ s1 s2 s1' HR E. cbv zeta in E |- *. pose proof HR as [Hr _].
     destruct (r_assoc (w_r s1)); [|discriminate].
-    destruct ((r_qa (w_r s1) =? QA_INFO_NA)%N && negb (dirty s1)); [|discriminate].
+    destruct (((r_qa (w_r s1) =? QA_INFO_NA)%N || ((r_qa (w_r s1) =? QA_INFO_WAITING)%N && negb (ck_c33 (w_c s1))))
+              && negb (dirty s1)); [|discriminate].
     rewrite <- Hr. eapply sim_cemit; eassumption.
   - intros idx s1 s2 s1' HR E. unfold chk_add_link in E. injection E as <-. unfold comp_add_link. eauto.
 Qed.
 
-Lemma chk_run_compile nzf T sC : chk_run nzf T = Ok sC -> compile T = Ok (ck_code (w_c sC)).
+Lemma chk_run_compile nzf c33 T sC : chk_run nzf c33 T = Ok sC -> compile T = Ok (ck_code (w_c sC)).
 Proof.
   unfold chk_run, compile. intros E.
-  assert (HR0 : Rst Rck (mkWs regs0 (mkCk SNil 0)) (mkWs regs0 SNil)) by (split; reflexivity).
+  assert (HR0 : Rst Rck (mkWs regs0 (mkCk SNil 0 c33)) (mkWs regs0 SNil)) by (split; reflexivity).
   destruct (proj2 (chk_walk_compile nzf) T _ _ _ HR0 E) as (s2 & E2 & [_ Hc]).
   rewrite E2. cbn [bind]. unfold Rck in Hc. cbn in Hc. rewrite <- Hc. reflexivity.
 Qed.
@@ -89,33 +103,50 @@ Qed.
 Section Top.
 Context {C : Type} (P : prims C).
 
-Lemma compile_exec_gen nzf :
+Lemma compile_exec_gen nzf c33 :
   (nzf = true -> forall c n, p_factor P c = Ok n -> n <> 0%N) ->
-  forall T, is_ok (chk_run nzf T) = true ->
+  forall T, is_ok (chk_run nzf c33 T) = true ->
   exists code, compile T = Ok code /\
-    forall c0 : io C,
+    forall c0 : io C, (c33 = false -> Forall no33_dd (io_dd c0)) ->
       agree same_io (walk_list (io_handlers P) io_add_link T (mkWs regs0 c0))
                     (exec_stmts P true code (mkWs regs0 c0)).
 Proof.
-  intros Hnz T Hok. destruct (chk_run nzf T) as [sC|] eqn:E; [|discriminate].
-  exists (ck_code (w_c sC)). split; [apply (chk_run_compile nzf); exact E|].
-  intros c0. unfold chk_run in E.
+  intros Hnz T Hok. destruct (chk_run nzf c33 T) as [sC|] eqn:E; [|discriminate].
+  exists (ck_code (w_c sC)). split; [apply (chk_run_compile nzf c33); exact E|].
+  intros c0 H0. unfold chk_run in E.
   assert (HS0 : StatInv regs0 0) by (split; [left; reflexivity|cbn; lia]).
   destruct (proj2 (walk_simc P nzf Hnz) T _ _ E HS0) as (code & Ec & _ & A).
   cbn [w_c ck_code stmts_app] in Ec. rewrite Ec.
   eapply agree_mono; [|apply A].
   - intros x y [Hc _]. exact Hc.
-  - split; [reflexivity|]. cbn [w_r w_c ck_ndef]. exact InvR_init.
+  - split; [reflexivity|]. cbn [w_r w_c ck_ndef ck_c33]. split; [exact InvR_init|].
+    intros X. split; [exact (H0 X)|]. cbn. auto.
 Qed.
 
-(* FULL STATEMENT of C08's compile/exec equivalence, for every primitive family *)
+(* FULL STATEMENT of C08's compile/exec equivalence, for every primitive family;
+   the start state holds no decoded class 33 element descriptor (e.g. none at all) *)
 Theorem compile_exec_equiv T :
   ok_c08 T = true ->
+  exists code, compile T = Ok code /\
+    forall c0 : io C, Forall no33_dd (io_dd c0) ->
+      agree same_io (walk_list (io_handlers P) io_add_link T (mkWs regs0 c0))
+                    (exec_stmts P true code (mkWs regs0 c0)).
+Proof.
+  intros Hok. destruct (compile_exec_gen false false (fun X => False_ind _ (Bool.diff_false_true X)) T Hok) as (code & Ec & A).
+  exists code. split; [exact Ec|]. intros c0 H0. apply A. intros _. exact H0.
+Qed.
+
+(* ... and for an arbitrary start state *)
+Theorem compile_exec_equiv_any T :
+  ok_c08_any T = true ->
   exists code, compile T = Ok code /\
     forall c0 : io C,
       agree same_io (walk_list (io_handlers P) io_add_link T (mkWs regs0 c0))
                     (exec_stmts P true code (mkWs regs0 c0)).
-Proof. apply (compile_exec_gen false). intros X; discriminate X. Qed.
+Proof.
+  intros Hok. destruct (compile_exec_gen false true (fun X => False_ind _ (Bool.diff_false_true X)) T Hok) as (code & Ec & A).
+  exists code. split; [exact Ec|]. intros c0. apply A. intros X; discriminate X.
+Qed.
 
 End Top.
 
@@ -124,19 +155,23 @@ End Top.
 Theorem compile_exec_equiv_nz {C} (P : prims C) T :
   ok_c08_nz T = true ->
   exists code, compile T = Ok code /\
-    forall c0 : io C,
+    forall c0 : io C, Forall no33_dd (io_dd c0) ->
       agree same_io (walk_list (io_handlers (nz_prims P)) io_add_link T (mkWs regs0 c0))
                     (exec_stmts (nz_prims P) true code (mkWs regs0 c0)).
 Proof.
-  apply (compile_exec_gen (nz_prims P) true). intros _ c n E. cbn [nz_prims p_factor] in E.
-  destruct (p_factor P c) as [m|]; cbn [bind] in E; [|discriminate].
-  destruct (m =? 0)%N eqn:Em; [discriminate|]. injection E as <-. lia.
+  intros Hok.
+  assert (Hnz : true = true -> forall c n, p_factor (nz_prims P) c = Ok n -> n <> 0%N).
+  { intros _ c n E. cbn [nz_prims p_factor] in E.
+    destruct (p_factor P c) as [m|]; cbn [bind] in E; [|discriminate].
+    destruct (m =? 0)%N eqn:Em; [discriminate|]. injection E as <-. lia. }
+  destruct (compile_exec_gen (nz_prims P) true false Hnz T Hok) as (code & Ec & A).
+  exists code. split; [exact Ec|]. intros c0 H0. apply A. intros _. exact H0.
 Qed.
 
 (* ---- the loops over subsets --------------------------------------------------------- *)
 Section Subsets.
 Context {C : Type} (P : prims C) (T : descs) (code : stmts).
-Hypothesis Hagree : forall c0 : io C,
+Hypothesis Hagree : forall c0 : io C, Forall no33_dd (io_dd c0) ->
   agree same_io (walk_list (io_handlers P) io_add_link T (mkWs regs0 c0))
                 (exec_stmts P true code (mkWs regs0 c0)).
 
@@ -144,7 +179,7 @@ Lemma run_subsets_c_eq sw : forall n i c acc,
   run_subsets_c P true code sw i n c acc = run_subsets P T sw i n c acc.
 Proof.
   induction n as [|n IH]; intros i c acc; cbn [run_subsets_c run_subsets]; [reflexivity|].
-  unfold run_template. pose proof (Hagree (mkIo [] [] (sw i c))) as A. unfold agree, same_io in A.
+  unfold run_template. pose proof (Hagree (mkIo [] [] (sw i c)) (Forall_nil _)) as A. unfold agree, same_io in A.
   destruct (walk_list (io_handlers P) io_add_link T _) as [s1|e1], (exec_stmts P true code _) as [s2|e2];
     cbn [bind]; try contradiction.
   - rewrite <- A. apply IH.
@@ -154,7 +189,7 @@ Qed.
 Lemma run_compressed_c_eq n c : run_compressed_c P true code n c = run_compressed P T n c.
 Proof.
   unfold run_compressed_c, run_compressed, run_template.
-  pose proof (Hagree (mkIo [] [] c)) as A. unfold agree, same_io in A.
+  pose proof (Hagree (mkIo [] [] c) (Forall_nil _)) as A. unfold agree, same_io in A.
   destruct (walk_list (io_handlers P) io_add_link T _) as [s1|e1], (exec_stmts P true code _) as [s2|e2];
     cbn [bind]; try contradiction.
   - rewrite <- A. reflexivity.
@@ -231,3 +266,17 @@ Definition T_d19 : descs :=
       DDelayed 101000 (DElem e031001) (dl [DElem e031031]); DFixed 101002 (dl [DElem e033007])].
 Example ok_c08_d19 : ok_c08 T_d19 = false /\ ok_c08_nz T_d19 = true.
 Proof. vm_compute. split; reflexivity. Qed.
+
+(* a marker operator while the 222000 status is "waiting": accepted when no class 33
+   element can be among the back references, rejected for an arbitrary start state
+   and when a class 33 element precedes *)
+Definition T_waiting : descs :=
+  dl [DElem e012001; DElem e012001; DOper 222000; DOper 236000; DFixed 101002 (dl [DElem e031031]);
+      DOper 224255; DElem e033007].
+Definition T_waiting33 : descs :=
+  dl [DElem e012001; DElem e033007; DOper 222000; DOper 236000; DFixed 101002 (dl [DElem e031031]);
+      DOper 224255; DOper 224255].
+Example ok_c08_waiting :
+  ok_c08 T_waiting = true /\ ok_c08_any T_waiting = false /\ ok_c08 T_waiting33 = false /\
+  ok_c08_any T_ok = true.
+Proof. vm_compute. repeat split. Qed.
